@@ -58,6 +58,7 @@ def families(tier):
         {'name': 'duplicate', 'params': {'P': 2, 'hist': 'T'}, 'weight': 2},
         {'name': 'both-fail-deep', 'params': {'P': 2, 'hist': 'T'}, 'weight': 2},
         {'name': 'duplicate', 'params': {'P': 1, 'hist': 'BT'}, 'weight': 1},
+        {'name': 'duplicate', 'params': {'P': 2, 'hist': 'BT', 'reuse': True}, 'weight': 1},
         {'name': 'same-dir', 'params': {'P': 2, 'hist': 'T'}, 'weight': 2},
         {'name': 'one-fails', 'params': {'P': 2, 'hist': 'T'}, 'weight': 2},
         {'name': 'deep-shared', 'params': {'P': 2, 'hist': 'T'}, 'weight': 2},
